@@ -88,6 +88,8 @@ package main
 //@   requires [C05] t != nil && pres != nil && pres.Acs != nil
 //@   assert at call ApplyMutation#1 [C05] want_from_want:   $1 == pres.Acs.Want
 //@   assert at call ApplyMutation#2 [C05] given_from_given: $1 == pres.Acs.Given
+// (a subscriber the proxy has not seen yet is a new subscriber: the change is applied to a blank entry, not dropped)
+//@   ensures [C05] unknown_subscriber_not_dropped: types.ParseUserId(pres.Src) != types.ZeroUid ==> called("ApplyMutation") >= old(called("ApplyMutation")) + 1
 //@   ensures [C05] only_this_user: forall u types.Uid :: u != types.ParseUserId(pres.Src) ==> (u in t.perUser) == old(u in t.perUser) && t.perUser[u].modeWant == old(t.perUser[u].modeWant) && t.perUser[u].modeGiven == old(t.perUser[u].modeGiven)
 //@   modifies inferred
 
